@@ -10,6 +10,7 @@ have run on every rank when it returns.  The mpi_typeof table and the per-collec
 (barrier first) are compared with the model's tables."""
 import math
 import struct
+import zlib
 
 from lib import common as C
 
@@ -626,6 +627,182 @@ def evaluate(job, sr, res, use_model):
     return eval_types(job, sr, res, use_model)
 
 
+# ----------------------------------------------------------------------------- size-boundary sweep (also called by C03)
+
+SWEEP_KINDS = ["all_reduce_str", "all_reduce_vec64", "all_reduce_vecpair", "mpi_bcast_str", "bcast_str", "sendrecv_str"]
+_PAT = {}
+
+
+def sweep_str(r, L):
+    """input string of rank r for size parameter L (same formula as harness/coll.cpp)"""
+    off = (r * 7 + L) % 26
+    if off not in _PAT:
+        _PAT[off] = "".join(chr(97 + (j * 3 + off) % 26) for j in range(26))
+    return (_PAT[off] * (L // 26 + 1))[:L]
+
+
+def sweep_token(kind, r, L):
+    if kind == "all_reduce_vec64":
+        return "_" + ",".join(str(r * 1000003 + j * 17 + L) for j in range(L))
+    if kind == "all_reduce_vecpair":
+        return "_" + sweep_str(r, L) + ":" + str(r - 2)
+    return "_" + sweep_str(r, L)
+
+
+def sweep_ser_bytes(kind, L):
+    """cereal size of one rank's input (what a leaf->parent edge / the bcast carries)"""
+    return 8 + 8 * L if kind == "all_reduce_vec64" else (20 + L if kind == "all_reduce_vecpair" else 8 + L)
+
+
+def sweep_sizes(kind, tier):
+    if kind == "all_reduce_vec64":
+        base = list(range(0, 281))
+        for S in (4096, 65536, 1 << 20):
+            base += [(S - 8) // 8 + d for d in (-1, 0, 1)]
+        return base
+    hdr = 20 if kind == "all_reduce_vecpair" else 8
+    base = list(range(0, 2201))
+    for S in (4096, 65536, 1 << 20):
+        base += [S - hdr + d for d in (-2, -1, 0, 1, 2)]
+    return base
+
+
+def spec_of(sizes):
+    out, i = [], 0
+    while i < len(sizes):
+        j = i
+        while j + 1 < len(sizes) and sizes[j + 1] == sizes[j] + 1:
+            j += 1
+        out.append(str(sizes[i]) if i == j else f"{sizes[i]}-{sizes[j]}")
+        i = j + 1
+    return ",".join(out)
+
+
+def sweep_roots(kind, R):
+    if kind not in ("mpi_bcast_str", "bcast_str"):
+        return [-1]
+    return [0] + ([R - 1] if R > 1 else []) + ([R // 2] if R > 2 else [])
+
+
+def run_size_sweep(res, tier, seed, model_ok=True):
+    """Every serialised size 0..~2200 bytes (1-byte steps) and a few around 4 KiB / 64 KiB / 1 MiB through the serialised
+    collectives (tree all_reduce with a merge functor on string / vector<uint64_t> / vector<pair<string,int>>, comm::mpi_bcast and
+    ygm::bcast of strings from several roots, mpi_send/mpi_recv ping-pong) on 2, 3 and 5 ranks; one process run per (ranks, collective).
+    A non-ok verdict is a failing input (the collective did not return); results are compared with YgmVerif.Coll through their CRC.
+    Needs only the `coll` harness; failures are appended to `res`."""
+    binary, err = C.build_harness("coll")
+    if binary is None:
+        res.corr_failures.append({"relation": "harness builds against /repo", "what": err[-800:], "case": None})
+        return 0
+    layouts_ = [(1, 2), (1, 3), (1, 5)] if tier == "quick" else [(1, 2), (1, 3), (1, 5), (2, 2), (1, 7), (2, 4)]
+    jobs = []
+    for i, (N, P) in enumerate(layouts_):
+        for k, kind in enumerate(SWEEP_KINDS):
+            jobs.append({"mode": "sweep", "kind": kind, "nodes": N, "ppn": P, "sim_seed": seed * 389 + i * 17 + k,
+                         "policy": POLICIES[(i + k + seed) % len(POLICIES)], "env": {"YGM_COMM_ROUTING": ROUTINGS[(i + seed) % 3]}})
+
+    def do(job):
+        R = job["nodes"] * job["ppn"]
+        kind = job["kind"]
+        todo = sweep_sizes(kind, tier)
+        roots = sweep_roots(kind, R)
+        got = {}            # (L, root) -> {rank: (crc, len)}
+        fails = []
+        for attempt in range(4):
+            if not todo:
+                break
+            sr = C.run_sim(binary, ["sweep", kind, spec_of(todo)], nodes=job["nodes"], ppn=job["ppn"], env=job["env"], sim_seed=job["sim_seed"],
+                           policy=job["policy"], want_log=False, timeout=900, max_steps=20000000)
+            for rank in range(R):
+                for l in sr.outs.get(rank, []):
+                    w = l.split(" ")
+                    if w[0] == "s":
+                        got.setdefault((int(w[1]), int(w[2])), {})[rank] = (int(w[3]), int(w[4]))
+            if sr.verdict == "ok":
+                break
+            bad = next((L for L in todo if any(len(got.get((L, rt), {})) < R for rt in roots)), None)
+            fails.append((bad, sr.verdict, sr.blocked, sr.stderr[-300:]))
+            if bad is None:
+                break
+            todo = todo[todo.index(bad) + 1:]       # go on behind the size that hung
+        keys = [k for k in got if len(got[k]) == R]
+        keys.sort()
+        model = {}
+        merr = None
+        if model_ok and keys:
+            try:
+                if kind == "sendrecv_str":
+                    memo = {}
+
+                    def batch(toks):
+                        toks = sorted(set(t for t in toks if t not in memo))
+                        for t, o in zip(toks, C.model("coll", ["xfer " + t for t in toks]) if toks else []):
+                            memo[t] = o
+                    ins = {L: [sweep_token(kind, r, L) for r in range(R)] for (L, _) in keys}
+                    batch([t for v in ins.values() for t in v])
+                    batch(["_" + memo[v[r]][1:] + v[r + 1][1:] for v in ins.values() for r in range(0, R - 1, 2)])
+                    for (L, rt) in keys:
+                        model[(L, rt)] = sendrecv_expected(ins[L], lambda t: memo[t])
+                else:
+                    cmd = {"all_reduce_str": "treecat", "all_reduce_vec64": "treevec", "all_reduce_vecpair": "treevec"}
+                    lines = []
+                    for (L, rt) in keys:
+                        toks = " ".join(sweep_token(kind, r, L) for r in range(R))
+                        lines.append(f"{cmd[kind]} {toks}" if kind in cmd else f"{'mpibcastser' if kind == 'mpi_bcast_str' else 'bcastser'} {rt} {toks}")
+                    for key, o in zip(keys, C.model("coll", lines, timeout=1800)):
+                        model[key] = o.split(" ")
+            except Exception as ex:     # noqa: BLE001
+                merr = repr(ex)[:300]
+        return job, got, keys, fails, model, merr
+
+    total = 0
+    for job, got, keys, fails, model, merr in C.pmap(do, jobs):
+        R = job["nodes"] * job["ppn"]
+        kind = job["kind"]
+        base = {k: job[k] for k in ("mode", "kind", "nodes", "ppn", "sim_seed", "policy", "env")}
+        for (bad, verdict, blocked, stderr) in fails:
+            word = verdict.split(" ")[0].rstrip(":")
+            ser = sweep_ser_bytes(kind, bad) if bad is not None else None
+            res.oracle_failures.append({"what": f"{kind} on {R} ranks did not return ({verdict}) for size parameter L={bad} "
+                                                f"(one rank's value serialises to {ser} bytes)",
+                                        "signature": f"coll-size-sweep {word} {kind} L={bad} ser={ser}",
+                                        "case": dict(base, L=bad, serialised_bytes=ser, verdict=verdict, blocked=blocked, stderr=stderr)})
+        if merr:
+            res.corr_failures.append({"relation": "model driver answers the size sweep", "what": merr, "case": base})
+        for key in keys:
+            L, rt = key
+            total += 1
+            real = [got[key][r] for r in range(R)]
+            case = dict(base, L=L, root=rt, serialised_bytes=sweep_ser_bytes(kind, L), real_crc_len=real)
+            # ---- oracle: bcast delivers the root's value; the (non-commutative) tree merges must at least agree and keep every byte
+            if rt >= 0 or kind == "sendrecv_str":
+                if kind == "sendrecv_str":
+                    exp = sendrecv_expected([sweep_token(kind, r, L) for r in range(R)], lambda t: t)
+                else:
+                    exp = [sweep_token(kind, rt, L)] * R
+                expc = [(zlib.crc32(t.encode()), len(t)) for t in exp]
+                if real != expc:
+                    res.oracle_failures.append({"what": f"{kind} on {R} ranks, L={L}, root {rt}: a rank did not receive the transferred value",
+                                                "signature": f"coll-size-sweep value {kind} L={L}", "case": dict(case, expected_crc_len=expc)})
+            else:
+                want_len = 1 + sum(len(sweep_token(kind, r, L)) - 1 for r in range(R)) + ((R - 1) if kind != "all_reduce_str" and (L > 0 or kind == "all_reduce_vecpair") else 0)
+                if len(set(real)) != 1 or real[0][1] != want_len:
+                    res.oracle_failures.append({"what": f"{kind} on {R} ranks, L={L}: ranks disagree or the result lost/duplicated input bytes "
+                                                        f"(length {real[0][1]}, inputs give {want_len})",
+                                                "signature": f"coll-size-sweep value {kind} L={L}", "case": dict(case, expected_len=want_len)})
+            # ---- correspondence
+            if key in model:
+                mc = [(zlib.crc32(t.encode()), len(t)) for t in model[key]]
+                if mc != real:
+                    res.corr_failures.append({"relation": f"YgmVerif.Coll == real {kind} (size sweep, CRC of the result)",
+                                              "what": f"{kind} on {R} ranks L={L} root {rt}: model {mc[:2]} real {real[:2]}", "case": dict(case, model_crc_len=mc)})
+            res.distinct.add(("sweep", kind, R, L, rt))
+        res.count(f"sweep-{kind}", len(keys))
+    res.evaluations += total
+    res.traces_validated += total if model_ok else 0
+    return total
+
+
 # ----------------------------------------------------------------------------- entry points
 
 def run(tier, seed, model_ok=True):
@@ -660,6 +837,7 @@ def run(tier, seed, model_ok=True):
                     res.sample({"layout": [job["nodes"], job["ppn"]], "round": k[0], "test": k[1], "inputs": tests[k]["in"],
                                 "real_per_rank": [tests[k]["res"].get(r) for r in range(5)]})
             sampled = True
+    run_size_sweep(res, tier, seed, model_ok)
     # ---- a disagreement with the model that no oracle confirmed: search around it for a failing input
     if res.corr_failures and not res.oracle_failures:
         extra = []
